@@ -244,7 +244,7 @@ theorem svc_not_denied_create (s : St) (a : AuthRec) (e : Err) (h : (createAuthS
     | (simp at h; subst h; rfl)
     | (simp at h; done)
     | skip
-  all_goals (cases hg : (genAuthID (KV.has s.auths) 100 s.nextAuth).1 <;> simp [hg] at h)
+  all_goals (cases hg : (genAuthID (KV.has s.auths) 100 s.nextAuth).1 <;> simp [hg] at h <;> (try (subst h; rfl)))
 
 theorem svc_not_denied_update (s : St) (id : Nat) (act : Bool) (e : Err) (h : (updateAuthSvc s id act).2 = .error e) :
     denied e = false := by
